@@ -7,7 +7,10 @@ import Pi2.MM.ConvCoherence
 # C16 — valid Metamath proofs translate to checkable proofs of the same statement
 
 Model: `Pi2/MM/Translate.lean` — a Metamath verifier for fragment F0 written from the Metamath book
-(`mmVerify`), the converter's image of terms (`image`), and `exec_proof` + the gamma/claim phases of
+(`mmVerify`), the converter's image of terms (`image`; DECLARED NOTATIONS `$a #Notation ( n args ) body` are part of the
+model: `Ctor.body`, expanded by `image` as the converter's closures do — `plug`, `DB.notTab` — and constructors like any
+other for `mmVerify`; `DB.wf` asks that a notation symbol has one constructor axiom and that a body mentions the
+notation's own variables and, of the notation symbols, earlier ones only), and `exec_proof` + the gamma/claim phases of
 `ProofExp.execute_full` (`translateFull`, tree after the `fix:` commit F13), for any memoisation
 configuration (`--optimize` or not).  Compressed-proof decoding is C15.
 
@@ -48,9 +51,15 @@ configuration (`--optimize` or not).  Compressed-proof decoding is C15.
   every such database and that its output is coherent with every statement; `ConvCoh.inFragmentM_of_shape` derives the run
   conditions.  `fragment_shape_example`: the predicate holds of a concrete database (kernel evaluation), so the theorems are not
   vacuous; the driver evaluates it on every generated database.
+* `notation_axiom_is_body_image`: what `exec_proof` pushes for a step that cites the constructor axiom of a declared
+  notation (`axiom.pattern` = the image of `( n v₁ … vₖ )`) is the image of the notation's body;
+  `notation_example`: a concrete database with a declared notation (kernel evaluation).
+* The three theorems at the top hold for every well-formed database, with or without declared notations.  The TEXT ties
+  (`exec_proof_*` hold for every well-formed database; `converter_*`, `translation_text_*`) go through `dbOfMDb`, which
+  produces no notation: the converter's notation paths (`_add_notation`, `sugar_axiom`) are tied to the model by the
+  byte-for-byte comparison of `vlib/props/c16.py` only.
 * NOT covered by a theorem: the byte limits of the wire format (a proof that needs more than 256
-  memory slots cannot be serialised: recorded finding KF-C16-slots) and declared notation sugar
-  (`#Notation` axioms), which are outside F0.
+  memory slots cannot be serialised: recorded finding KF-C16-slots).
 -/
 namespace C16
 open MM PySt
@@ -216,5 +225,72 @@ theorem fragment_shape_example : MM.ConvSpec.FragmentShape MM.ConvSpec.Example.d
 example : ∃ sp, MM.ConvSpec.dbOfMDb MM.ConvSpec.Example.db "goal" = some sp ∧ sp.db.wf = true :=
   let ⟨sp, h1, h2, _⟩ := converter_text_is_the_model_of_shape _ _ fragment_shape_example
   ⟨sp, h1, h2⟩
+
+/-! ## declared notations -/
+
+/-- a step that cites the constructor axiom `n-is-pattern` of a declared notation: `xstep` (`xCtor`) pushes
+`image db ( n v₁ … vₖ )` — `axiom.pattern`, the notation's closure called on its own metavariables —, and that is the image of
+the notation's body -/
+theorem notation_axiom_is_body_image (db : DB) (k : Nat) (c : Ctor) (b : MM.Term) (hwf : db.wf = true)
+    (hk : db.ctors[k]? = some c) (hb : c.body = some b) :
+    image db (.con c.sym (c.args.map .var)) = image db b :=
+  MM.image_notation_axiom db hwf k c b hk hb
+
+/-- a database without declared notations: `image` is the plain structural image (symbol applied with nested `\app`) -/
+theorem image_without_notations (db : DB) (h : ∀ c ∈ db.ctors, c.body = none) (c : Nat) (xs : List MM.Term) :
+    image db (.con c xs) = (xs.map (image db)).foldl (fun a p => NPat.app a p) (.sym c) := by
+  rw [MM.image_con_plain db h, ConvTie.imageApp_foldl]
+
+/-! ### a concrete database -/
+
+namespace NotationExample
+
+/-- `$f` statements for `x y z` (`0 1 2`); a binary constructor `( f x y )` (symbol 7), a constant `c` (symbol 3) and the declared
+notation `d-is-pattern $a #Pattern ( d x ) $.`, `d-is-sugar $a #Notation ( d x ) ( f x x ) $.` (symbol 9: its body applies the
+binary constructor to its argument twice); the axiom `ax $a |- ( d x ) $.`; the three proof rules -/
+def db : DB :=
+  { floats := [0, 1, 2], impArgs := (0, 1), appArgs := (0, 1),
+    ctors := [{ sym := 7, args := [0, 1] }, { sym := 3, args := [] },
+              { sym := 9, args := [0], body := some (.con 7 [.var 0, .var 0]) }],
+    rules := [⟨[], .con 9 [.var 0]⟩], p1 := (0, 1), p2 := (0, 1, 2), mp := (0, 1) }
+
+/-- `( d ( d c ) )`: the notation applied to itself -/
+def goal : MM.Term := .con 9 [.con 9 [.con 3 []]]
+/-- `c-is-pattern d-is-pattern ax`: builds `#Pattern ( d c )` and applies the axiom to it -/
+def labels : List Lbl := [.ctor 1, .ctor 2, .rule 0]
+def steps : List Nat := [1, 2, 3]
+
+/-- `f c c` and `f (f c c) (f c c)` as patterns -/
+def fcc : Pat := .app (.app (.sym 7) (.sym 3)) (.sym 3)
+def ffcc : Pat := .app (.app (.sym 7) fcc) fcc
+
+end NotationExample
+
+/-- non-vacuity for declared notations: the database `NotationExample.db` is well formed, Metamath accepts the proof of
+`|- ( d ( d c ) )` (for Metamath `d` is a constructor like any other), the image of the target has the notation expanded twice
+(`f (f c c) (f c c)`), the image of the axiom `|- ( d x )` is `f x x`; so `translation_accepted` applies and the checker publishes
+exactly these two patterns.  All facts by kernel evaluation. -/
+theorem notation_example :
+    NotationExample.db.wf = true ∧
+    mmVerify NotationExample.db NotationExample.goal NotationExample.labels NotationExample.steps = true ∧
+    (image NotationExample.db NotationExample.goal).expand = NotationExample.ffcc ∧
+    NotationExample.db.axiomImages.map NPat.expand =
+      [.app (.app (.sym 7) (.mv 0 [] [] [] [] [])) (.mv 0 [] [] [] [] [])] ∧
+    ∀ cfg : Cfg, ∃ n s calls g c p,
+      translateFull cfg n NotationExample.db NotationExample.goal NotationExample.labels NotationExample.steps
+        = some (some (s, calls)) ∧
+      PySt.trackAll n (PySt.init [image NotationExample.db NotationExample.goal]) calls ([], [], []) = some (some (s, (g, c, p))) ∧
+      (CanonCalls [] calls →
+        verify g c p = some ([.app (.app (.sym 7) (.mv 0 [] [] [] [] [])) (.mv 0 [] [] [] [] [])], [NotationExample.ffcc])) := by
+  have hwf : NotationExample.db.wf = true := by decide +kernel
+  have hv : mmVerify NotationExample.db NotationExample.goal NotationExample.labels NotationExample.steps = true := by
+    decide +kernel
+  have hg : (image NotationExample.db NotationExample.goal).expand = NotationExample.ffcc := by decide +kernel
+  have ha : NotationExample.db.axiomImages.map NPat.expand =
+      [.app (.app (.sym 7) (.mv 0 [] [] [] [] [])) (.mv 0 [] [] [] [] [])] := by decide +kernel
+  refine ⟨hwf, hv, hg, ha, fun cfg => ?_⟩
+  obtain ⟨n, s, calls, g, c, p, h1, h2, h3⟩ :=
+    translation_accepted cfg NotationExample.db NotationExample.goal NotationExample.labels NotationExample.steps hwf hv
+  exact ⟨n, s, calls, g, c, p, h1, h2, fun hc => by rw [h3 hc, ha, hg]⟩
 
 end C16
